@@ -39,8 +39,8 @@ CFG = {
                   "(accepted => exact encryption image; modified tag => Err) — computational unforgeability is a labelled per-instance premise of "
                   "C12_emip3_rejects_modified; 'verification fails under another key or message' is tested, not proved; the hook H12 pass-throughs; extraction and "
                   "OCaml/Rust glue; harness built with debug assertions. No axioms.",
-    "theorems": ["C12_laws_satisfiable", "C12_witness_signs_hash", "C12_xprv128_roundtrip", "C12_xprv128_unfixed_refuted",
-                 "C12_key_encodings_roundtrip", "C12_hash_bech32_unfixed_refuted", "C12_hrp_checked", "C12_soft_derivation_commutes",
+    "theorems": ["C12_laws_satisfiable", "C12_bech32_laws_proved", "C12_witness_signs_hash", "C12_witness_bytes_sign_hash", "C12_xprv128_roundtrip", "C12_xprv128_unfixed_refuted",
+                 "C12_key_encodings_roundtrip", "C12_key_encodings_roundtrip_any_codec", "C12_hash_bech32_unfixed_refuted", "C12_hrp_checked", "C12_hrp_checked_any_codec", "C12_soft_derivation_commutes",
                  "C12_hardened_from_public_refused", "C12_bip39_root_valid", "C12_emip3_roundtrip", "C12_emip3_empty_plaintext_unfixed_refuted",
                  "C12_emip3_accepts_only_encrypt_images", "C12_emip3_rejects_modified", "C12_emip3_rejects_modified_tag",
                  "C12_model_satisfies_judge", "C12_sequences_stepwise"],
